@@ -9,6 +9,7 @@
 -/
 import AriadneModel.Proofs.C01Plain
 import AriadneModel.Model.Claim01
+import AriadneModel.Proofs.C01Regions
 
 set_option linter.unusedSimpArgs false
 set_option linter.unusedVariables false
@@ -74,18 +75,6 @@ theorem operationTypeName_rootOf (env : ResultTypes.Env) (o : Operation) (rt : S
   cases hk : o.kind <;> simp only [hk] at h ⊢ <;> simp [h, pure, Except.pure]
 
 /-! ### the pydantic environment agrees with the schema on enums -/
-
-/-- decidable conditions on the schema under which the generated enum classes mean what the schema says:
-    type names are pairwise distinct, no enum is called like a builtin annotation (`str`, `int`, `float`, `bool`, `Any`),
-    and the five built-in scalar names are not redefined as something else -/
-def schemaOK (S : Schema) : Bool :=
-  nodupB (S.types.map (·.name))
-  && (S.types.all fun t => !(t.kind == .enum) || !(["str", "int", "float", "bool", "Any"].contains t.name))
-  && (["Int", "Float", "String", "ID", "Boolean"].all fun n =>
-        match S.kindOf? n with
-        | none => true
-        | some .scalar => true
-        | _ => false)
 
 def enumsOf (S : Schema) : List (String × List String) :=
   (S.types.filter (·.kind == .enum)).map fun t => (t.name, t.values)
@@ -187,18 +176,6 @@ theorem envAgrees_of_schemaOK (env : ResultTypes.Env) (penv : Pyd.Env) (h : sche
         simp [Schema.kindOf?, hg, hkt]
 
 /-! ### names the result module imports -/
-
-/-- the names a generated result module imports (or may import): pydantic / typing helpers and the schema's enum classes.
-    A generated class with one of these names shadows the import (e.g. `class BaseModel(BaseModel)`: data silently dropped
-    on the real code). -/
-def importedNames (env : ResultTypes.Env) : List String :=
-  ["BaseModel", "Field", "Optional", "List", "Any", "Literal", "Union", "Annotated", "BeforeValidator", "Upload"]
-  ++ (env.schema.types.filter (·.kind == .enum)).map (·.name)
-  ++ env.scalars.map (·.typeName)
-
-/-- no generated class is called like something the module imports -/
-def NoShadowedImport (env : ResultTypes.Env) (classes : List ClassDecl) : Bool :=
-  classes.all fun c => !(importedNames env).contains c.name
 
 theorem NoShadowedImport_baseModel {env : ResultTypes.Env} {classes : List ClassDecl}
     (h : NoShadowedImport env classes = true) : "BaseModel" ∉ classes.map (·.name) := by
